@@ -43,6 +43,13 @@ def badRootParent : Model :=
 def signLoop : Model :=
   { model with nodes := model.nodes.set 4 { (model.nodes[4]!) with signCons := [2] } }
 
+/-- the same model followed by an unreachable node that has no `NodeId` / carries a wrong one -/
+def extraNodeNoId : Model :=
+  { model with nodes := model.nodes ++ [{ id := none, parent := none, ruleNames := [], vEdges := [], pEdges := [], signCons := [] }] }
+
+def extraNodeWrongId : Model :=
+  { model with nodes := model.nodes ++ [{ id := some 3, parent := none, ruleNames := [], vEdges := [], pEdges := [], signCons := [] }] }
+
 /-- no user functions -/
 def noFns : FnEnv := fun _ => none
 
